@@ -330,6 +330,7 @@ func (self *RemoteJobManager) sendJob(shellCmd string, argv []string, envs map[s
 	ctx context.Context) {
 	jobscript := self.jobScript(shellCmd, argv, envs, metadata,
 		resRequest, fqname, shellName)
+	verifEvent("SendJob", "md", metadata.path, "fq", fqname, "kind", shellName)
 	if err := metadata.WriteRaw("jobscript", jobscript); err != nil {
 		util.LogError(err, "jobmngr", "Could not write job script.")
 	}
